@@ -78,7 +78,18 @@ enum Op {
 }
 
 /// (lower bound reported, upper bound reported or None, actual number of items)
-const HINTS: [(usize, Option<usize>, usize); 6] = [(0, None, 3), (1, None, 3), (2, Some(5), 3), (0, Some(3), 3), (1, Some(1), 1), (0, None, 0)];
+const HINTS: [(usize, Option<usize>, usize); 9] = [
+    (0, None, 3),
+    (1, None, 3),
+    (2, Some(5), 3),
+    (0, Some(3), 3),
+    (1, Some(1), 1),
+    (0, None, 0),
+    // truthful but enormous upper bounds (e.g. take_while over an unbounded range)
+    (0, Some(usize::MAX), 2),
+    (1, Some(usize::MAX - 1), 3),
+    (0, Some(usize::MAX / 2 + 1), 1),
+];
 
 /// An iterator that yields `items` but reports the given size hint (legal: lower <= actual <= upper).
 struct Hinted<A> {
